@@ -637,6 +637,27 @@ def iter_consumer(I, a, n):
             if x is END:
                 return acc
             acc = I.callf(a[2], [acc, x])
+    if op == "try_fold":
+        # try_fold(init, f): f returns Result<B, E> / Option<B> / ControlFlow; stops at the first residual
+        acc = a[1]
+        kind = None
+        while True:
+            x = it.nxt(I)
+            if x is END:
+                g = first_generic(n)
+                rt = (g[-1] if g else "").strip()
+                if kind == "Option" or rt.startswith("std::option::Option"):
+                    return SOME(acc)
+                if kind == "ControlFlow" or rt.startswith("std::ops::ControlFlow"):
+                    return EnumV("std::ops::ControlFlow", 0, [acc])
+                return OK(acc)
+            r = I.callf(a[2], [acc, x])
+            if not isinstance(r, EnumV):
+                raise Unsupported("try_fold: closure result %r" % (r,))
+            kind = r.ty.split("::")[-1]
+            if (kind == "Result" and r.variant == 1) or (kind == "Option" and r.variant == 0) or (kind == "ControlFlow" and r.variant == 1):
+                return r
+            acc = r.fields[0]
     if op == "reduce":
         acc = it.nxt(I)
         if acc is END:
